@@ -108,7 +108,7 @@ class RunStuck(BaseException):
     of the harness or the library swallows it)."""
 
 
-STUCK_AFTER_S = float(os.environ.get('VERIF_STUCK_AFTER_S', '60'))
+STUCK_AFTER_S = float(os.environ.get('VERIF_STUCK_AFTER_S', '120'))
 
 
 def stuck_guard(fn):
@@ -292,7 +292,7 @@ class BatchConfig:
     runs: int
     workers: int = 16
     wall_budget_s: float = 600.0
-    run_timeout_s: float = 120.0
+    run_timeout_s: float = 300.0
     chunk: int = 8
 
 
